@@ -173,6 +173,19 @@ func r01_6(c *Ctx) {
 			c.bad(fnLabel(fn)+":retry-parse", P.pos(fn.Pos()), "no numeric parse of the retry field found in its switch case: the retry field is not interpreted")
 		}
 	}
+	// the retry callback is optional (sse.Read passes none): its call is guarded by a nil test
+	if x := findInterp(P); x != nil && x.onRetry != nil {
+		it := x.fn
+		eachInstrDeep(it, func(in ssa.Instruction) {
+			if !x.isOnRetryCall(in) {
+				return
+			}
+			isCB := func(v ssa.Value) bool { a, ok := loadedFrom(v); return ok && a == x.onRetry }
+			lb, _ := liftBlock(in.Block(), it)
+			g := lb != nil && (guardedByNil(it, lb, isCB, false) || factGuards(it, lb, factNil(isCB, false)))
+			c.check(g, fnLabel(it)+":retry-callback-nil-guard", P.ipos(in), "the optional retry callback is called only where it was found non-nil", "the retry callback is called without a nil test: sse.Read, which passes none, panics on the first valid retry field")
+		})
+	}
 }
 
 // ---------------------------------------------------------------------------
@@ -269,7 +282,7 @@ func globalBytesInit(P *Program, g *ssa.Global) (string, bool) {
 		if fn == init {
 			continue
 		}
-		eachInstrDeep(fn, func(in ssa.Instruction) {
+		eachInstr(fn, func(in ssa.Instruction) {
 			if st, ok := in.(*ssa.Store); ok && st.Addr == ssa.Value(g) {
 				found = false
 			}
@@ -297,7 +310,27 @@ func r01_1(c *Ctx) {
 	// (i) getFieldName
 	gf := P.Fn("parser.getFieldName")
 	if gf == nil {
-		c.anchor("parser.getFieldName")
+		// the name decision may be written in place in scanSegment: chunk[:colonPos] compared with the names
+		if ssf := P.Fn("(*parser.FieldParser).scanSegment"); ssf != nil && len(ssf.Params) == 3 {
+			eq, _ := inlineFieldNameDecision(ssf, ssf.Params[1])
+			if len(eq) == 0 {
+				c.anchor("parser.getFieldName (or an in-place name decision in scanSegment)")
+			} else {
+				seen := map[string]bool{}
+				for e, v := range eq {
+					c.check(K[v] != "", "parser.getFieldName:case("+v+")", P.pos(e.From.Instrs[len(e.From.Instrs)-1].Pos()), "accepts "+v+" exactly when the text before the colon equals it (decided in place)", "the in-place field-name decision accepts a name that is not a field-name constant")
+					seen[v] = true
+				}
+				for v := range K {
+					if !seen[v] {
+						c.bad("parser.getFieldName:case("+v+")", P.pos(ssf.Pos()), "the in-place field-name decision has no accepting case for field name "+v+": such fields are dropped by the decoder")
+					}
+				}
+				c.ok("parser.getFieldName:default", P.pos(ssf.Pos()), "every other name falls through to the blank-line / comment / ignore branches")
+			}
+		} else {
+			c.anchor("parser.getFieldName")
+		}
 	} else {
 		seen := map[string]bool{}
 		hasDefault := false
@@ -307,6 +340,33 @@ func r01_1(c *Ctx) {
 			}
 			s, okS := constString(ret.Results[0])
 			b, okB := constBool(ret.Results[1])
+			if !okS && okB && b && stripConvAll(ret.Results[0]) == ssa.Value(gf.Params[0]) {
+				// the input itself is returned (converted), under equality with one of several constants
+				// (`case A, B, C: return name, true`): every path to this return passes such an equality
+				eq := map[cfgEdge]string{}
+				for _, ifi := range ifsIn(gf) {
+					cnd := decodeIf(ifi)
+					if cnd.Y == nil || (cnd.Op != token.EQL && cnd.Op != token.NEQ) {
+						continue
+					}
+					if k, ok := constString(cnd.Y); ok && stripConvAll(cnd.X) == ssa.Value(gf.Params[0]) {
+						eq[cfgEdge{ifi.Block(), cnd.succWhen(cnd.Op == token.EQL)}] = k
+					}
+				}
+				blocked := map[cfgEdge]bool{}
+				for e := range eq {
+					blocked[e] = true
+				}
+				guardedAll := len(eq) > 0 && !reachesAvoiding(entryPoint(gf), ret, nil, blocked)
+				for e, v := range eq {
+					if !reachesAvoiding(atEdge(e.From, e.Idx), ret, nil, nil) {
+						continue
+					}
+					c.check(guardedAll && K[v] != "", "parser.getFieldName:case("+v+")", P.ipos(ret), "returns ("+v+", true) exactly when the input equals it", "getFieldName accepts a name that is not a field-name constant, or not under equality with it")
+					seen[v] = true
+				}
+				continue
+			}
 			if !okS && okB && b {
 				// table form: the accepted name is an element of a package-level table of names, returned
 				// under equality of that element with the input
@@ -779,6 +839,17 @@ func r01_4(c *Ctx) {
 	}
 	c.check(initOK, fnLabel(it)+":dirty-initial", P.pos(it.Pos()), "dirty starts false", "dirty does not start false: an empty stream would dispatch an event")
 	merge, ok := latchVal.(*ssa.Phi)
+	nLatch := 0
+	for i := range head.Edges {
+		if head.Block().Dominates(head.Block().Preds[i]) {
+			nLatch++
+		}
+	}
+	if nLatch > 1 {
+		// every path of the body jumps straight back to the loop header (no separate merge block): the header's
+		// own phi carries one value per path
+		merge, ok = head, true
+	}
 	if !ok {
 		c.undecided(fnLabel(it)+":dirty-merge", P.pos(it.Pos()), "the per-iteration dirty value is not a phi over the switch paths")
 		return
@@ -864,6 +935,33 @@ func r01_4(c *Ctx) {
 		case effects != "":
 			c.check(isC && b, name, pos, "path changing "+effects+"marks dirty", "a path that changes interpreter state ("+effects+") does not set dirty: the event is lost (not dispatched)")
 		default:
+			// a path without effect must be one on which the field really is ignored: an accepted data, event
+			// or id field (id: one without NUL) is "seen" and makes the event dispatchable even when it changes
+			// nothing (`id: 5` twice)
+			accepted := ""
+			isVal := func(v ssa.Value) bool { _, ok := isFieldLoad(v, "parser.Field", "Value"); return ok }
+			tookHasNUL := false
+			for _, e := range noNULEdges(it, isVal) {
+				for i := 0; i+1 < len(p); i++ {
+					if p[i] == e.From && len(e.From.Succs) == 2 && e.From.Succs[1-e.Idx] == p[i+1] && e.From.Succs[0] != e.From.Succs[1] {
+						tookHasNUL = true
+					}
+				}
+			}
+			for _, b := range p[:len(p)-1] {
+				switch {
+				case inFieldCase(it, "data", b):
+					accepted = "data"
+				case inFieldCase(it, "event", b):
+					accepted = "event"
+				case inFieldCase(it, "id", b) && !tookHasNUL:
+					accepted = "id"
+				}
+			}
+			if accepted != "" {
+				c.bad(name, pos, "a path through the "+accepted+" case on which the field was accepted (for id: not found to hold a NUL) neither records it nor sets dirty: a field that was seen must make the event dispatchable even when it changes nothing (an id equal to the current one, an empty id, …)")
+				continue
+			}
 			c.check(val == ssa.Value(head), name, pos, "path without state change leaves dirty unchanged", "a path that changes nothing (ignored field) alters dirty: an ignored field (NUL id, invalid retry, unknown) produces or suppresses an event")
 		}
 	}
@@ -882,6 +980,18 @@ func pathLabel(p []*ssa.BasicBlock) string {
 
 // noNULGuard: target block is dominated by the edge on which value v has no NUL byte.
 func noNULGuard(fn *ssa.Function, target *ssa.BasicBlock, isV func(ssa.Value) bool) bool {
+	for _, e := range noNULEdges(fn, isV) {
+		if edgeDominates(e.From, e.Idx, target) {
+			return true
+		}
+	}
+	return false
+}
+
+// noNULEdges: the branch edges on which value v is known to hold no NUL byte (the other successor of the
+// same branch is the edge on which it holds one).
+func noNULEdges(fn *ssa.Function, isV func(ssa.Value) bool) []cfgEdge {
+	var out []cfgEdge
 	for _, ifi := range ifsIn(fn) {
 		// strings.IndexByte(v, 0) compared with -1 / 0
 		op, k, succ, ok := cmpConstEdge(ifi, func(x ssa.Value) bool {
@@ -893,24 +1003,18 @@ func noNULGuard(fn *ssa.Function, target *ssa.BasicBlock, isV func(ssa.Value) bo
 			return isK && b == 0
 		})
 		if ok {
-			var e int
 			switch {
 			case op == token.NEQ && k == -1:
-				e = 1 - succ
+				out = append(out, cfgEdge{ifi.Block(), 1 - succ})
 			case op == token.EQL && k == -1:
-				e = succ
+				out = append(out, cfgEdge{ifi.Block(), succ})
 			case op == token.GEQ && k == 0:
-				e = 1 - succ
+				out = append(out, cfgEdge{ifi.Block(), 1 - succ})
 			case op == token.LSS && k == 0:
-				e = succ
-			default:
-				continue
+				out = append(out, cfgEdge{ifi.Block(), succ})
 			}
-			if edgeDominates(ifi.Block(), e, target) {
-				return true
-			}
+			continue
 		}
-		// strings.Contains(v, "\x00") / ContainsRune(v, 0)
 		if s, ok := boolEdge(ifi, func(x ssa.Value) bool {
 			if call, ok := isStaticCall(x, "strings.Contains"); ok {
 				k, isK := constString(call.Call.Args[1])
@@ -921,11 +1025,11 @@ func noNULGuard(fn *ssa.Function, target *ssa.BasicBlock, isV func(ssa.Value) bo
 				return isV(call.Call.Args[0]) && isK && k == 0
 			}
 			return false
-		}); ok && edgeDominates(ifi.Block(), 1-s, target) {
-			return true
+		}); ok {
+			out = append(out, cfgEdge{ifi.Block(), 1 - s})
 		}
 	}
-	return false
+	return out
 }
 
 func r01_5(c *Ctx) {
@@ -1085,13 +1189,17 @@ func r01_8(c *Ctx) {
 	P := c.P
 	ss := P.Fn("(*parser.FieldParser).scanSegment")
 	tf := P.Fn("parser.trimFirstSpace")
-	if ss == nil || tf == nil || len(ss.Params) != 3 {
-		c.anchor("parser.scanSegment / trimFirstSpace")
+	if ss == nil || len(ss.Params) != 3 {
+		c.anchor("parser.scanSegment")
 		return
 	}
 	chunk := ss.Params[1]
-	// trimFirstSpace: removes exactly one leading ' ' (path-wise, both directions)
-	{
+	isChunkV := func(x ssa.Value) bool { return x == ssa.Value(chunk) || carriesOnly(x, chunk) }
+	// trimFirstSpace: removes exactly one leading ' ' (path-wise, both directions); when the helper does
+	// not exist the values must be trimmed with strings.TrimPrefix(x, " ") (checked at the value stores)
+	if tf == nil {
+		c.ok("parser.trimFirstSpace", "-", "no trimFirstSpace helper: values are required to be trimmed with strings.TrimPrefix(x, \" \")")
+	} else {
 		good := len(tf.Params) == 1
 		why := ""
 		var sliceRet, sameRet bool
@@ -1168,7 +1276,7 @@ func r01_8(c *Ctx) {
 	// colon position: strings.IndexByte(chunk, ':')
 	var colon *ssa.Call
 	eachInstrDeep(ss, func(in ssa.Instruction) {
-		if call, ok := isStaticCall(in, "strings.IndexByte"); ok && call.Call.Args[0] == ssa.Value(chunk) {
+		if call, ok := isStaticCall(in, "strings.IndexByte"); ok && isChunkV(call.Call.Args[0]) {
 			if k, ok := constInt(call.Call.Args[1]); ok && k == ':' {
 				colon = call
 			}
@@ -1178,25 +1286,29 @@ func r01_8(c *Ctx) {
 		c.bad("parser.scanSegment:colon", P.pos(ss.Pos()), "the field name is not split at the first colon (strings.IndexByte(chunk, ':'))")
 		return
 	}
-	// colonPos phi: colon, or len(chunk) when -1
-	var colonPos ssa.Value
-	eachInstrDeep(ss, func(in ssa.Instruction) {
-		if phi, ok := in.(*ssa.Phi); ok {
-			hasColon, hasLen := false, false
-			for _, e := range phi.Edges {
-				if e == ssa.Value(colon) {
-					hasColon = true
-				}
-				if isLenOf(e, chunk) {
-					hasLen = true
-				}
-			}
-			if hasColon && hasLen {
-				colonPos = phi
+	// the "colon position or end of line" value: a phi (or a captured local) that holds the IndexByte
+	// result, or len(chunk) where that was -1
+	isColonPos := func(x ssa.Value) bool {
+		src := sources(x)
+		hasColon := false
+		for _, sv := range src {
+			switch {
+			case sv == ssa.Value(colon):
+				hasColon = true
+			case isLenOf(sv, chunk):
+			default:
+				return false
 			}
 		}
+		return hasColon && len(src) >= 2
+	}
+	found := false
+	eachInstrDeep(ss, func(in ssa.Instruction) {
+		if v, ok := in.(ssa.Value); ok && isColonPos(v) {
+			found = true
+		}
 	})
-	if colonPos == nil {
+	if !found {
 		c.undecided("parser.scanSegment:colon-or-end", P.ipos(colon), "no `colon position or end of line` value found")
 		return
 	}
@@ -1204,12 +1316,21 @@ func r01_8(c *Ctx) {
 	var gfn *ssa.Call
 	eachInstrDeep(ss, func(in ssa.Instruction) {
 		if call, ok := isModCall(in, "parser.getFieldName"); ok {
-			if sl, ok := call.Call.Args[0].(*ssa.Slice); ok && sl.X == ssa.Value(chunk) && sl.Low == nil && sl.High == colonPos {
+			if sl, ok := call.Call.Args[0].(*ssa.Slice); ok && isChunkV(sl.X) && sl.Low == nil && sl.High != nil && isColonPos(sl.High) {
 				gfn = call
 			}
 		}
 	})
-	c.check(gfn != nil, "parser.scanSegment:name", P.ipos(colon), "the field name is the text before the first colon (or the whole line)", "the field name is not chunk[:colonPos]")
+	inlineEq, inlineName := map[cfgEdge]string{}, ssa.Value(nil)
+	if gfn == nil {
+		inlineEq, inlineName = inlineFieldNameDecision(ss, chunk)
+		if inlineName != nil {
+			if sl, ok := stripConvAll(inlineName).(*ssa.Slice); !ok || !isColonPos(sl.High) {
+				inlineEq = map[cfgEdge]string{}
+			}
+		}
+	}
+	c.check(gfn != nil || len(inlineEq) > 0, "parser.scanSegment:name", P.ipos(colon), "the field name is the text before the first colon (or the whole line)", "the field name is not chunk[:colonPos]")
 	// the too-long-name early exit must not reject valid names: bound >= max name length
 	for _, ifi := range ifsIn(ss) {
 		op, k, succ, ok := cmpConstEdge(ifi, func(v ssa.Value) bool { return v == ssa.Value(colon) })
@@ -1248,66 +1369,58 @@ func r01_8(c *Ctx) {
 			g := false
 			for _, ifi := range ifsIn(ss) {
 				cnd := decodeIf(ifi)
-				if cnd.Y == nil || cnd.Op != token.EQL || cnd.X != ssa.Value(chunk) {
+				if cnd.Y == nil || cnd.Op != token.EQL || !isChunkV(cnd.X) {
 					continue
 				}
 				if k, ok := constString(cnd.Y); ok && k == "" && edgeDominates(ifi.Block(), cnd.succWhen(true), st.Block()) {
 					g = true
 				}
 			}
+			if !g {
+				// the same test written on the length: len(chunk) == 0
+				g = intGuard(ss, st.Block(), func(v ssa.Value) bool { return isLenOf(v, chunk) }, 0, 0, 0)
+			}
 			c.check(s == "" && g, name+"(end-of-event)", P.ipos(st), "an empty field (end of event) is produced only for a blank line", "the end-of-event marker is produced for a non-blank line")
 		case *ssa.Call:
-			if v.Call.StaticCallee() != tf {
-				c.undecided(name, P.ipos(st), "value is not trimFirstSpace(...)")
-				continue
-			}
-			sl, ok := v.Call.Args[0].(*ssa.Slice)
-			if !ok || sl.X != ssa.Value(chunk) || sl.High != nil {
-				c.bad(name, P.ipos(st), "the value is not the rest of the line")
-				continue
-			}
-			mn, ok := sl.Low.(*ssa.Call)
-			isMin := ok
-			if isMin {
-				b, okB := mn.Call.Value.(*ssa.Builtin)
-				isMin = okB && b.Name() == "min" && len(mn.Call.Args) == 2 && isLenOf(mn.Call.Args[1], chunk)
-			}
-			if k1, isK := constInt(sl.Low); isK && k1 == 1 && !isMin {
-				// chunk[1:] — legal only where the colon is the first byte (so the line is not empty)
-				g := false
-				for _, ifi := range ifsIn(ss) {
-					op, kk, succ, ok := cmpConstEdge(ifi, func(v ssa.Value) bool { return v == colonPos })
-					if ok && op == token.EQL && kk == 0 && edgeDominates(ifi.Block(), succ, st.Block()) {
-						g = true
+			colonZero := func(at *ssa.BasicBlock) bool {
+				// the merged `colon position or end of line` value is never negative when the raw IndexByte
+				// result reaches the merge only where it was found non-negative
+				domMin := int64(0)
+				eachInstrDeep(ss, func(in ssa.Instruction) {
+					phi, ok := in.(*ssa.Phi)
+					if !ok || !isColonPos(phi) {
+						return
 					}
-				}
-				c.check(g, name+"(comment)", P.ipos(st), "a comment is a line whose first character is the colon; its text starts after it", "chunk[1:] is used where the colon is not known to be the first byte")
+					for i, e := range phi.Edges {
+						if e != ssa.Value(colon) {
+							continue
+						}
+						isRaw := func(v ssa.Value) bool { return v == ssa.Value(colon) }
+						if !predEstablishes(phi.Block().Preds[i], phi.Block(), factInt(isRaw, -1, 0, posInf), phi.Parent()) {
+							domMin = -1
+						}
+					}
+				})
+				return intGuard(ss, at, isColonPos, domMin, 0, 0)
+			}
+			kind, why := restTrimmedKind(P, v, tf, chunk, isColonPos, 0)
+			if kind == "" {
+				c.bad(name, P.ipos(st), "the value is not the rest of the line after the colon with one leading space removed ("+why+")")
 				continue
 			}
-			if !isMin {
-				c.bad(name, P.ipos(st), "the value does not start right after the colon (min(colon+1, len))")
-				continue
-			}
-			if guardedByBool(ss, st.Block(), isOKext, true) {
-				// named field: min(colonPos+1, l)
-				add, ok := mn.Call.Args[0].(*ssa.BinOp)
-				good := ok && add.Op == token.ADD && add.X == colonPos
-				if good {
-					k, isK := constInt(add.Y)
-					good = isK && k == 1
+			namedInline := false
+			if len(inlineEq) > 0 && len(st.Block().Instrs) > 0 {
+				blockedEq := map[cfgEdge]bool{}
+				for e := range inlineEq {
+					blockedEq[e] = true
 				}
-				c.check(good, name+"(field)", P.ipos(st), "value = trimFirstSpace(chunk[min(colonPos+1, len):])", "a named field's value does not start one past the colon")
+				namedInline = !reachesAvoiding(entryPoint(ss), st, nil, blockedEq)
+			}
+			if guardedByBool(ss, st.Block(), isOKext, true) || namedInline {
+				c.check(kind == "colon+1", name+"(field)", P.ipos(st), "value = the text one past the colon, one leading space removed", "a named field's value does not start one past the colon")
 			} else {
-				// comment: colonPos == 0 and keepComments
-				k, isK := constInt(mn.Call.Args[0])
-				g := false
-				for _, ifi := range ifsIn(ss) {
-					op, kk, succ, ok := cmpConstEdge(ifi, func(v ssa.Value) bool { return v == colonPos })
-					if ok && op == token.EQL && kk == 0 && edgeDominates(ifi.Block(), succ, st.Block()) {
-						g = true
-					}
-				}
-				c.check(isK && k == 1 && g, name+"(comment)", P.ipos(st), "a comment is a line whose first character is the colon; its text starts after it", "a comment is produced for a line not starting with a colon, or its text offset is wrong")
+				g := colonZero(st.Block())
+				c.check(g && (kind == "one" || kind == "colon+1"), name+"(comment)", P.ipos(st), "a comment is a line whose first character is the colon; its text starts after it", "a comment is produced for a line not starting with a colon, or its text offset is wrong")
 			}
 		default:
 			c.undecided(name, P.ipos(st), "unrecognised value source "+describe(st.Val))
@@ -1341,28 +1454,112 @@ func r01_9(c *Ctx, part string) {
 	} else {
 		recv, out := fn.Params[0], fn.Params[1]
 		name := fnLabel(fn)
-		var nc, ss *ssa.Call
+		var nc, ni, ss *ssa.Call
+		isData := func(v ssa.Value) bool {
+			b, ok := isFieldLoad(v, "parser.FieldParser", "data")
+			return ok && (b == ssa.Value(recv) || carriesOnly(b, recv) || typeIs(b.Type(), "parser", "FieldParser"))
+		}
 		eachInstrDeep(fn, func(in ssa.Instruction) {
-			if call, ok := isModCall(in, "parser.NextChunk"); ok {
-				if b, ok := isFieldLoad(call.Call.Args[0], "parser.FieldParser", "data"); ok && b == ssa.Value(recv) {
-					nc = call
-				}
+			if call, ok := isModCall(in, "parser.NextChunk"); ok && isData(call.Call.Args[0]) {
+				nc = call
+			}
+			if call, ok := isModCall(in, "parser.NewlineIndex"); ok && isData(call.Call.Args[0]) {
+				ni = call
 			}
 			if call, ok := isModCall(in, "(*parser.FieldParser).scanSegment"); ok {
 				ss = call
 			}
 		})
-		if nc == nil || ss == nil {
-			c.bad(name+":shape", P.pos(fn.Pos()), "FieldParser.Next does not (split f.data with NextChunk, hand the line to scanSegment)")
+		if (nc == nil && ni == nil) || ss == nil {
+			c.bad(name+":shape", P.pos(fn.Pos()), "FieldParser.Next does not (split f.data at the first line break with NextChunk / NewlineIndex, hand the line to scanSegment)")
 		} else {
-			ext := func(i int) func(ssa.Value) bool {
-				return func(v ssa.Value) bool {
-					e, ok := v.(*ssa.Extract)
-					return ok && e.Index == i && e.Tuple == ssa.Value(nc)
+			// the line source: NextChunk(f.data) → (line, rest, terminated), or NewlineIndex(f.data) → (i, n)
+			// with line = f.data[:i], rest = f.data[i+n:], terminated = n != 0
+			isExt := func(call *ssa.Call, i int) func(ssa.Value) bool {
+				return func(v ssa.Value) bool { return carriesExtract(v, call, i) }
+			}
+			var isLine, isRest func(ssa.Value) bool
+			var termT, termF fact
+			if nc != nil {
+				isRest = isExt(nc, 1)
+				termT, termF = factBool(isExt(nc, 2), true), factBool(isExt(nc, 2), false)
+				isLine = isExt(nc, 0)
+			} else {
+				isLen := isExt(ni, 1)
+				termT, termF = factInt(isLen, 0, 1, posInf), factInt(isLen, 0, 0, 0)
+				isLine = func(v ssa.Value) bool {
+					sl, ok := v.(*ssa.Slice)
+					return ok && isData(sl.X) && sl.Low == nil && sl.High != nil && isExt(ni, 0)(sl.High)
+				}
+				isRest = func(v ssa.Value) bool {
+					sl, ok := v.(*ssa.Slice)
+					if !ok || !isData(sl.X) || sl.High != nil || sl.Low == nil {
+						return false
+					}
+					add, ok := sl.Low.(*ssa.BinOp)
+					return ok && add.Op == token.ADD && ((isExt(ni, 0)(add.X) && isExt(ni, 1)(add.Y)) || (isExt(ni, 1)(add.X) && isExt(ni, 0)(add.Y)))
 				}
 			}
-			c.check(len(ss.Call.Args) == 3 && ext(0)(ss.Call.Args[1]) && ss.Call.Args[2] == ssa.Value(out) && guardedByBool(fn, ss.Block(), ext(2), true),
-				name+":line-to-scanSegment", P.ipos(ss), "the line NextChunk returned is scanned into the caller's Field, only when it was terminated", "scanSegment does not receive the terminated line returned by NextChunk (and the caller's Field)")
+			// a value that reaches scanSegment through an inlined helper's result: every result is the
+			// line, or "" together with a constant false beside it (the "no line" answer)
+			var lineVal func(v ssa.Value, d int) bool
+			lineVal = func(v ssa.Value, d int) bool {
+				if d > 4 {
+					return false
+				}
+				if isLine(v) {
+					return true
+				}
+				if e, ok := v.(*ssa.Extract); ok {
+					if call, ok := e.Tuple.(*ssa.Call); ok {
+						if g := iifeCallee(call); g != nil {
+							for _, r := range returnsOf(g) {
+								if e.Index >= len(r.Results) {
+									return false
+								}
+								rv := r.Results[e.Index]
+								if sv, isS := constString(rv); isS && sv == "" {
+									okFalse := false
+									for _, other := range r.Results {
+										if bv, isC := constBool(other); isC && !bv {
+											okFalse = true
+										}
+									}
+									if !okFalse {
+										return false
+									}
+									continue
+								}
+								if !lineVal(rv, d+1) {
+									return false
+								}
+							}
+							return true
+						}
+					}
+				}
+				src := sources(v)
+				if len(src) == 1 && src[0] != v {
+					return lineVal(src[0], d+1)
+				}
+				return false
+			}
+			ext := func(i int) func(ssa.Value) bool {
+				switch i {
+				case 1:
+					return isRest
+				}
+				return func(ssa.Value) bool { return false }
+			}
+			guardTerm := func(b *ssa.BasicBlock, want bool) bool {
+				if want {
+					return factGuards(fn, b, termT)
+				}
+				return factGuards(fn, b, termF)
+			}
+			outOK := ss.Call.Args[2] == ssa.Value(out) || carriesOnly(ss.Call.Args[2], out)
+			c.check(len(ss.Call.Args) == 3 && lineVal(ss.Call.Args[1], 0) && outOK && guardTerm(ss.Block(), true),
+				name+":line-to-scanSegment", P.ipos(ss), "the text before the first line break is scanned into the caller's Field, only when it was terminated", "scanSegment does not receive the terminated line returned by NextChunk (and the caller's Field)")
 			// consumption
 			nData := 0
 			eachInstrDeep(fn, func(in ssa.Instruction) {
@@ -1370,13 +1567,14 @@ func r01_9(c *Ctx, part string) {
 				if !ok {
 					return
 				}
-				if b, ok := isFieldSel(st.Addr, "parser.FieldParser", "data"); ok && b == ssa.Value(recv) {
+				if b, ok := isFieldSel(st.Addr, "parser.FieldParser", "data"); ok && (b == ssa.Value(recv) || carriesOnly(b, recv) || st.Parent() != fn) {
 					nData++
-					c.check(ext(1)(st.Val) && guardedByBool(fn, st.Block(), ext(2), true) && instrDominates(st, ss), name+":consume", P.ipos(st),
+					before := instrDominates(st, ss) || !reachesAvoiding(entryPoint(fn), ss, func(x ssa.Instruction) bool { return x == ssa.Instruction(st) }, nil)
+					c.check(ext(1)(st.Val) && guardTerm(st.Block(), true) && before, name+":consume", P.ipos(st),
 						"f.data advances to NextChunk's remainder, only for a terminated line, before the line is scanned", "f.data is not advanced exactly to the remainder after a terminated line: a line is parsed twice or skipped")
 				}
-				if b, ok := isFieldSel(st.Addr, "parser.FieldParser", "err"); ok && b == ssa.Value(recv) {
-					c.check(isGlobalLoadPkg(st.Val, parserPath, "ErrUnexpectedEOF") && guardedByBool(fn, st.Block(), ext(2), false), name+":unexpected-eof", P.ipos(st),
+				if b, ok := isFieldSel(st.Addr, "parser.FieldParser", "err"); ok && (b == ssa.Value(recv) || carriesOnly(b, recv) || st.Parent() != fn) {
+					c.check(isGlobalLoadPkg(st.Val, parserPath, "ErrUnexpectedEOF") && guardTerm(st.Block(), false), name+":unexpected-eof", P.ipos(st),
 						"ErrUnexpectedEOF is recorded exactly when the remaining data has no line break", "the unterminated-last-line error is recorded under another condition")
 				}
 			})
@@ -1395,7 +1593,7 @@ func r01_9(c *Ctx, part string) {
 					continue
 				}
 				// false: unterminated line (err set) or data exhausted
-				eof := guardedByBool(fn, ret.Block(), ext(2), false)
+				eof := guardTerm(ret.Block(), false)
 				exhausted := false
 				for _, ifi := range ifsIn(fn) {
 					cnd := decodeIf(ifi)
@@ -1406,7 +1604,7 @@ func r01_9(c *Ctx, part string) {
 					if !isS || s != "" {
 						continue
 					}
-					if bb, ok := isFieldLoad(cnd.X, "parser.FieldParser", "data"); ok && bb == ssa.Value(recv) && (cnd.Op == token.NEQ || cnd.Op == token.EQL) {
+					if isData(cnd.X) && (cnd.Op == token.NEQ || cnd.Op == token.EQL) {
 						if edgeDominates(ifi.Block(), cnd.succWhen(cnd.Op == token.EQL), ret.Block()) {
 							exhausted = true
 						}
@@ -1447,7 +1645,7 @@ func r01_9(c *Ctx, part string) {
 		if f.Pkg == nil || f.Pkg.Pkg.Path() != parserPath {
 			continue
 		}
-		eachInstrDeep(f, func(in ssa.Instruction) {
+		eachInstr(f, func(in ssa.Instruction) {
 			call, ok := isStaticCall(in, "strings.HasPrefix", "strings.TrimPrefix", "strings.CutPrefix")
 			if !ok {
 				return
@@ -1470,7 +1668,7 @@ func r01_9(c *Ctx, part string) {
 			}
 			// the strip: store to f.data of data[len(bom):] guarded by removeBOM, !started, HasPrefix
 			var strip *ssa.Store
-			eachInstrDeep(f, func(x ssa.Instruction) {
+			eachInstr(f, func(x ssa.Instruction) {
 				st, ok := x.(*ssa.Store)
 				if !ok {
 					return
@@ -1506,7 +1704,7 @@ func r01_9(c *Ctx, part string) {
 			c.check(lenOK && g, name, P.ipos(strip), "exactly the three BOM bytes are removed, only when enabled, not yet started and the data starts with the BOM", "the BOM strip is not (data[3:] under removeBOM && !started && HasPrefix(data, BOM)): a BOM inside the stream is stripped or a leading one is kept")
 			// started is set with the strip
 			setStarted := false
-			eachInstrDeep(f, func(x ssa.Instruction) {
+			eachInstr(f, func(x ssa.Instruction) {
 				if st, ok := x.(*ssa.Store); ok {
 					if b, ok := isFieldSel(st.Addr, "parser.FieldParser", "started"); ok && b == ssa.Value(recv) {
 						if bv, isC := constBool(st.Val); isC && bv && st.Block() == strip.Block() {
@@ -1580,8 +1778,47 @@ func r01_9(c *Ctx, part string) {
 	}
 }
 
+// byteClassPredicate: f(b byte) bool holds exactly for the bytes in want among the probed values
+// (decided by constant propagation over every byte value 0..255).
+func byteClassPredicate(f *ssa.Function, want map[int64]bool) (bool, int64) {
+	if f == nil || len(f.Params) != 1 || f.Blocks == nil {
+		return false, -1
+	}
+	for k := int64(0); k < 256; k++ {
+		res := sccp(f, map[ssa.Value]constant.Value{f.Params[0]: constant.MakeInt64(k)}, nil, nil)
+		if len(res.Exit) == 0 {
+			return false, k
+		}
+		for ret := range res.Exit {
+			if len(ret.Results) != 1 {
+				return false, k
+			}
+			v := ret.Results[0]
+			var l lat
+			if cv, ok := v.(*ssa.Const); ok && cv.Value != nil {
+				l = latConst(cv.Value)
+			} else {
+				l = res.Vals[v]
+			}
+			if l.kind != 1 || l.val.Kind() != constant.Bool || constant.BoolVal(l.val) != want[k] {
+				return false, k
+			}
+		}
+	}
+	return true, -1
+}
+
 func r01_9crlf(c *Ctx) {
 	P := c.P
+	// the line-break predicate shared by the splitter, the line scanner and the encoder: LF and CR only
+	if nl := P.Fn("parser.isNewlineChar"); nl != nil {
+		ok, at := byteClassPredicate(nl, map[int64]bool{10: true, 13: true})
+		if ok {
+			c.ok(fnLabel(nl)+":class", P.pos(nl.Pos()), "isNewlineChar holds exactly for LF (10) and CR (13), decided for all 256 byte values")
+		} else {
+			c.bad(fnLabel(nl)+":class", P.pos(nl.Pos()), "isNewlineChar is not exactly {LF, CR} (differs, or is not decided, for byte "+itoa(int(at))+"): another byte (VT, FF, …) ends lines and events, or a line break is missed")
+		}
+	}
 	// (c) CRLF
 	ni := P.Fn("parser.NewlineIndex")
 	if ni == nil || len(ni.Params) != 1 {
@@ -1789,8 +2026,8 @@ func r01_12(c *Ctx) {
 	nExit, nStay := 0, 0
 	why := ""
 	for _, p := range paths {
-		if p.EndEdge == nil {
-			continue // a return from inside the loop: judged by R20.2/R20.4
+		if p.EndEdge == nil && p.Ret == nil {
+			continue
 		}
 		f1T, f1F, f2T, f2F := false, false, false, false
 		lo, hi := int64(0), posInf
@@ -1828,7 +2065,9 @@ func r01_12(c *Ctx) {
 		if lo > hi || (f1T && f1F) || (f2T && f2F) {
 			continue // infeasible
 		}
-		leaves := !L.Blocks[p.EndEdge.From.Succs[p.EndEdge.Idx]]
+		// leaving the loop: through an exit edge, or by returning from inside it (a scan loop that lives
+		// in a helper returns its result directly)
+		leaves := p.Ret != nil || !L.Blocks[p.EndEdge.From.Succs[p.EndEdge.Idx]]
 		if leaves {
 			nExit++
 			if !(f1T || (f2T && lo >= 1)) {
@@ -1879,7 +2118,10 @@ func digitsOnlyLoopGuards(top *ssa.Function, parse *ssa.Call) bool {
 			if L == nil {
 				continue
 			}
-			isOK := func(v ssa.Value) bool { e, ok := v.(*ssa.Extract); return ok && e.Tuple == ssa.Value(next) && e.Index == 0 }
+			isOK := func(v ssa.Value) bool {
+				e, ok := v.(*ssa.Extract)
+				return ok && e.Tuple == ssa.Value(next) && e.Index == 0
+			}
 			isRune := func(v ssa.Value) bool {
 				for _, sv := range sources(v) {
 					e, ok := stripConvAll(sv).(*ssa.Extract)
@@ -1924,7 +2166,9 @@ func digitsOnlyLoopGuards(top *ssa.Function, parse *ssa.Call) bool {
 						}
 					}
 				}
-				leaves := !L.Blocks[p.EndEdge.From.Succs[p.EndEdge.Idx]]
+				// leaving the loop: through an exit edge, or by returning from inside it (a scan loop that lives
+				// in a helper returns its result directly)
+				leaves := p.Ret != nil || !L.Blocks[p.EndEdge.From.Succs[p.EndEdge.Idx]]
 				switch {
 				case leaves && done:
 					sawDone = true
@@ -2040,7 +2284,7 @@ func tableElement(P *Program, v ssa.Value) (table []string, elem ssa.Value, ok b
 		if fn == init {
 			continue
 		}
-		eachInstrDeep(fn, func(in ssa.Instruction) {
+		eachInstr(fn, func(in ssa.Instruction) {
 			if st, ok := in.(*ssa.Store); ok {
 				if st.Addr == ssa.Value(g) {
 					good = false
@@ -2062,4 +2306,543 @@ func tableElement(P *Program, v ssa.Value) (table []string, elem ssa.Value, ok b
 		table = append(table, sv)
 	}
 	return table, elem, true
+}
+
+// restTrimmedKind matches "the rest of the line after an offset, with exactly one leading space removed":
+// trimFirstSpace(x) / strings.TrimPrefix(x, " ") of chunk[off:], or an inlined helper all of whose results are
+// that (or "" where the offset is at or past the end of the line). It returns the offset kind: "colon+1"
+// (min(colonPos+1, len) or colonPos+1) or "one" (min(1, len) or 1); "" with a reason if v is something else.
+func restTrimmedKind(P *Program, v ssa.Value, tf *ssa.Function, chunk ssa.Value, isColon func(ssa.Value) bool, depth int) (string, string) {
+	if depth > 3 {
+		return "", "too deep"
+	}
+	isChunk := func(x ssa.Value) bool { return x == chunk || carriesOnly(x, chunk) }
+	call, ok := v.(*ssa.Call)
+	if !ok {
+		return "", "not a call: " + describe(v)
+	}
+	if g := iifeCallee(call); g != nil && g.Signature.Results().Len() == 1 {
+		kind := ""
+		for _, r := range returnsOf(g) {
+			rv := r.Results[0]
+			if sv, isS := constString(rv); isS && sv == "" {
+				// empty value: only where the offset is at/past the end of the line
+				okG := false
+				for _, ifi := range ifsInOnly(g) {
+					cnd := decodeIf(ifi)
+					if cnd.Y == nil {
+						continue
+					}
+					x, y, op := cnd.X, cnd.Y, cnd.Op
+					if isLenOf(x, chunk) {
+						x, y, op = y, x, flipOp(op)
+					}
+					if !isLenOf(y, chunk) || !isColon(x) {
+						continue
+					}
+					var e int
+					switch op {
+					case token.GEQ, token.EQL:
+						e = cnd.succWhen(true)
+					case token.LSS, token.NEQ:
+						e = cnd.succWhen(false)
+					default:
+						continue
+					}
+					if edgeDominates(ifi.Block(), e, r.Block()) {
+						okG = true
+					}
+				}
+				if !okG {
+					return "", "an empty value is produced without the colon being at the end of the line"
+				}
+				continue
+			}
+			k, why := restTrimmedKind(P, rv, tf, chunk, isColon, depth+1)
+			if k == "" {
+				return "", why
+			}
+			if kind != "" && kind != k {
+				return "", "results disagree on the offset"
+			}
+			kind = k
+		}
+		if kind == "" {
+			return "", "the helper never produces the rest of the line"
+		}
+		return kind, ""
+	}
+	var x ssa.Value
+	switch {
+	case tf != nil && call.Call.StaticCallee() == tf:
+		x = call.Call.Args[0]
+	case calleeName(call) == "strings.TrimPrefix":
+		if sp, isS := constString(call.Call.Args[1]); !isS || sp != " " {
+			return "", "TrimPrefix with something other than one space"
+		}
+		x = call.Call.Args[0]
+	default:
+		return "", "not trimFirstSpace / strings.TrimPrefix(x, \" \")"
+	}
+	sl, ok := x.(*ssa.Slice)
+	if !ok || !isChunk(sl.X) || sl.High != nil || sl.Low == nil {
+		return "", "the trimmed text is not the rest of the line"
+	}
+	low := sl.Low
+	if mn, ok := low.(*ssa.Call); ok {
+		if b, okB := mn.Call.Value.(*ssa.Builtin); okB && b.Name() == "min" && len(mn.Call.Args) == 2 {
+			switch {
+			case isLenOf(mn.Call.Args[1], chunk):
+				low = mn.Call.Args[0]
+			case isLenOf(mn.Call.Args[0], chunk):
+				low = mn.Call.Args[1]
+			}
+		}
+	}
+	if k, isK := constInt(low); isK && k == 1 {
+		return "one", ""
+	}
+	if add, ok := low.(*ssa.BinOp); ok && add.Op == token.ADD {
+		a, b := add.X, add.Y
+		if _, aK := a.(*ssa.Const); aK {
+			a, b = b, a
+		}
+		if k, isK := constInt(b); isK && k == 1 && isColon(a) {
+			return "colon+1", ""
+		}
+	}
+	return "", "the rest of the line does not start one past the colon"
+}
+
+// inlineFieldNameDecision: scanSegment decides the field name in place: it compares (the conversion of)
+// chunk[:…] with string constants; returns the equality edges with their constants and the compared value.
+func inlineFieldNameDecision(ss *ssa.Function, chunk ssa.Value) (map[cfgEdge]string, ssa.Value) {
+	eq := map[cfgEdge]string{}
+	var name ssa.Value
+	for _, ifi := range ifsIn(ss) {
+		cnd := decodeIf(ifi)
+		if cnd.Y == nil || (cnd.Op != token.EQL && cnd.Op != token.NEQ) {
+			continue
+		}
+		k, ok := constString(cnd.Y)
+		if !ok || k == "" {
+			continue
+		}
+		sl, isSl := stripConvAll(cnd.X).(*ssa.Slice)
+		if !isSl || !(sl.X == chunk || carriesOnly(sl.X, chunk)) || sl.Low != nil || sl.High == nil {
+			continue
+		}
+		if name != nil && stripConvAll(name) != stripConvAll(cnd.X) {
+			continue
+		}
+		name = cnd.X
+		eq[cfgEdge{ifi.Block(), cnd.succWhen(cnd.Op == token.EQL)}] = k
+	}
+	return eq, name
+}
+
+// ---------------------------------------------------------------------------
+// R01.13: data assembly in the stream interpreter
+
+func init() {
+	register(&Rule{ID: "R01.13", Title: "the interpreter appends every data value followed by one LF, unconditionally (the spec's data buffer)", Floor: 1, Run: r01_13})
+	for _, id := range []string{"C01", "C02"} {
+		if p := properties[id]; p != nil {
+			p.Rules = append(p.Rules, "R01.13")
+			p.Explanation += " R01.13 (opportunistic, when the interpreter collects data in a strings.Builder): in the data case the field's value and then a single LF are written to the builder on every path — no write in that case depends on the builder's current length — so an empty data line contributes its line break (a separator written *before* a value only when the buffer is non-empty drops leading empty lines)."
+		}
+	}
+}
+
+func r01_13(c *Ctx) {
+	P := c.P
+	it := iteratorBody(P)
+	if it == nil {
+		c.anchor("iterator body")
+		return
+	}
+	name := fnLabel(it) + ":data-buffer"
+	type w struct {
+		call *ssa.Call
+		lf   bool
+		val  bool
+	}
+	var ws []w
+	eachInstrDeep(it, func(in ssa.Instruction) {
+		call, ok := isStaticCall(in, "(*strings.Builder).WriteString", "(*strings.Builder).WriteByte", "(*strings.Builder).WriteRune")
+		if !ok {
+			return
+		}
+		lb, okL := liftBlock(call.Block(), it)
+		if !okL || !inFieldCase(it, "data", lb) {
+			return
+		}
+		x := w{call: call}
+		arg := call.Call.Args[1]
+		if k, isK := constInt(arg); isK && k == '\n' {
+			x.lf = true
+		}
+		if sv, isS := constString(arg); isS && sv == "\n" {
+			x.lf = true
+		}
+		if _, isV := isFieldLoad(arg, "parser.Field", "Value"); isV {
+			x.val = true
+		}
+		ws = append(ws, x)
+	})
+	if len(ws) == 0 {
+		c.ok(name, P.pos(it.Pos()), "not decided: the data case does not write to a strings.Builder (another representation of the data buffer)")
+		return
+	}
+	var val, lf *w
+	for i := range ws {
+		if ws[i].val {
+			val = &ws[i]
+		}
+		if ws[i].lf {
+			lf = &ws[i]
+		}
+	}
+	if val == nil || lf == nil || len(ws) != 2 {
+		c.bad(name, P.pos(it.Pos()), "the data case does not write exactly the field's value and one LF to the data buffer")
+		return
+	}
+	lenDep := false
+	for _, x := range ws {
+		isLen := func(v ssa.Value) bool { _, ok := isStaticCall(v, "(*strings.Builder).Len"); return ok }
+		if intGuard(it, x.call.Block(), isLen, 0, 1, posInf) || intGuard(it, x.call.Block(), isLen, 0, 0, 0) {
+			lenDep = true
+		}
+	}
+	if lenDep {
+		c.bad(name, P.ipos(lf.call), "a write of the data case depends on the buffer's length: leading empty data lines are dropped, so `data:` + `data: x` yields \"x\" instead of \"\\nx\"")
+		return
+	}
+	// form (A): value first, then LF, both unconditional within the case; the dispatched string drops exactly
+	// the final LF
+	if instrDominates(val.call, lf.call) {
+		c.check(val.call.Block() == lf.call.Block(), name, P.ipos(lf.call), "value, then one LF, on every path of the data case",
+			"the data case does not append (value, LF) unconditionally: a data line loses its line break")
+		dataTrim(c, it, true)
+		return
+	}
+	// form (B): a separator written before the value, under a flag that says "this event already has a
+	// data line"; the dispatched string is the buffer as it is
+	if lf.call.Parent() != it || val.call.Parent() != it {
+		c.ok(name, P.ipos(lf.call), "not decided: the separator form of the data buffer is spread over nested function literals")
+		return
+	}
+	var ifF *ssa.If
+	var flag *ssa.Phi
+	trueSucc := 0
+	for _, ifi := range ifsInOnly(it) {
+		cv := ifi.Cond
+		ts := 0
+		for {
+			if u, isU := cv.(*ssa.UnOp); isU && u.Op == token.NOT {
+				cv, ts = u.X, 1-ts
+				continue
+			}
+			break
+		}
+		ph, isPhi := cv.(*ssa.Phi)
+		if !isPhi || !(edgeDominates(ifi.Block(), 0, lf.call.Block()) || edgeDominates(ifi.Block(), 1, lf.call.Block())) || edgeDominates(ifi.Block(), 0, val.call.Block()) || edgeDominates(ifi.Block(), 1, val.call.Block()) {
+			continue
+		}
+		if ifF == nil || ifF.Block().Dominates(ifi.Block()) {
+			ifF, flag, trueSucc = ifi, ph, ts
+		}
+	}
+	if ifF == nil {
+		c.ok(name, P.ipos(lf.call), "not decided: the LF is written before the value under a condition that is not a boolean loop variable (another representation of `this event already has a data line`)")
+		return
+	}
+	H := flag.Block()
+	good, why := true, ""
+	fail := func(s string) {
+		if good {
+			good, why = false, s
+		}
+	}
+	// entry edges carry false, and every trip round the loop keeps the flag equal to "a value was written since the
+	// buffer was last reset"
+	inLoop := func(b *ssa.BasicBlock) bool { return H.Dominates(b) && reach([]*ssa.BasicBlock{b}, nil, nil)[H] }
+	for i, pr := range H.Preds {
+		if inLoop(pr) {
+			continue
+		}
+		for _, sv := range sources(flag.Edges[i]) {
+			if b, isC := constBool(sv); !isC || b {
+				fail("the flag is not false when the loop is entered")
+			}
+		}
+	}
+	first := 0
+	for first < len(H.Instrs) {
+		if _, isPhi := H.Instrs[first].(*ssa.Phi); !isPhi {
+			break
+		}
+		first++
+	}
+	paths, okP := walkPaths(H, first, 4096, nil, nil, func(e cfgEdge) bool { return e.From.Succs[e.Idx] == H })
+	if !okP {
+		c.undecided(name, P.ipos(lf.call), "too many paths through the interpreter loop")
+		return
+	}
+	back := 0
+	for _, p := range paths {
+		var last ssa.Instruction
+		hasLF, hasVal, lfFirst := false, false, false
+		for _, in := range p.Instrs {
+			switch {
+			case in == ssa.Instruction(val.call):
+				last, hasVal = in, true
+			case in == ssa.Instruction(lf.call):
+				hasLF = true
+				lfFirst = !hasVal
+			default:
+				if call, ok := in.(*ssa.Call); ok {
+					if _, isR := isStaticCall(call, "(*strings.Builder).Reset"); isR {
+						last = in
+					} else if g := iifeCallee(call); g != nil {
+						eachInstrDeep(g, func(x ssa.Instruction) {
+							if _, isR := isStaticCall(x, "(*strings.Builder).Reset"); isR {
+								last = in
+							}
+						})
+					}
+				}
+			}
+		}
+		tookTrue := p.St.Edges[cfgEdge{ifF.Block(), trueSucc}]
+		if hasLF != (hasVal && tookTrue) || (hasLF && !lfFirst) {
+			fail("the separator is not written exactly when the flag is set, before the value")
+		}
+		if p.EndEdge == nil {
+			continue
+		}
+		back++
+		var nv ssa.Value
+		for i, pr := range H.Preds {
+			if pr == p.EndEdge.From {
+				nv = p.St.resolve(flag.Edges[i])
+			}
+		}
+		switch {
+		case last == nil:
+			if nv != ssa.Value(flag) {
+				fail("the flag changes on a trip that neither wrote a value nor reset the buffer")
+			}
+		case last == ssa.Instruction(val.call):
+			if b, isC := constBool(nv); !isC || !b {
+				fail("the flag is not set after a data value was written")
+			}
+		default:
+			if b, isC := constBool(nv); !isC || b {
+				fail("the flag is not cleared where the buffer is reset")
+			}
+		}
+	}
+	if back == 0 {
+		fail("no trip round the loop found")
+	}
+	c.check(good, name, P.ipos(lf.call), "separator form: one LF before every data value but the first of an event (flag false at entry, set by the value write, cleared with the buffer's Reset, unchanged otherwise)",
+		"the data case does not keep the spec's data buffer in its separator form ("+why+"): a line break between data lines is lost or added")
+	dataTrim(c, it, false)
+}
+
+// dataTrim: the Data of a dispatched event is the buffer's String() minus exactly one final byte when it is
+// non-empty (terminator form, wantTrim) or the buffer's String() itself (separator form).
+func dataTrim(c *Ctx, it *ssa.Function, wantTrim bool) {
+	P := c.P
+	name := fnLabel(it) + ":data-dispatch"
+	var fns []*ssa.Function
+	var collect func(f *ssa.Function)
+	collect = func(f *ssa.Function) {
+		fns = append(fns, f)
+		for _, a := range f.AnonFuncs {
+			collect(a)
+		}
+	}
+	collect(it)
+	// param of a function literal -> the arguments at its calls
+	var argsOf func(p *ssa.Parameter) []ssa.Value
+	argsOf = func(p *ssa.Parameter) []ssa.Value {
+		g := p.Parent()
+		idx := -1
+		for i, q := range g.Params {
+			if q == p {
+				idx = i
+			}
+		}
+		var out []ssa.Value
+		for _, f := range fns {
+			eachInstr(f, func(in ssa.Instruction) {
+				call, ok := in.(*ssa.Call)
+				if !ok || idx < 0 || idx >= len(call.Call.Args) {
+					return
+				}
+				for _, sv := range append(sources(call.Call.Value), call.Call.Value) {
+					if mc, isMC := sv.(*ssa.MakeClosure); isMC && mc.Fn == ssa.Value(g) {
+						out = append(out, call.Call.Args[idx])
+						return
+					}
+					if fv, isF := sv.(*ssa.Function); isF && fv == g {
+						out = append(out, call.Call.Args[idx])
+						return
+					}
+				}
+			})
+		}
+		return out
+	}
+	var isBuf func(v ssa.Value, depth int) bool
+	isBuf = func(v ssa.Value, depth int) bool {
+		if depth > 4 {
+			return false
+		}
+		src := sources(v)
+		if len(src) == 0 {
+			src = []ssa.Value{v}
+		}
+		for _, sv := range src {
+			if _, ok := isStaticCall(sv, "(*strings.Builder).String"); ok {
+				continue
+			}
+			if p, isP := sv.(*ssa.Parameter); isP && p.Parent() != it && p.Parent().Parent() != nil {
+				as := argsOf(p)
+				if len(as) == 0 {
+					return false
+				}
+				for _, a := range as {
+					if !isBuf(a, depth+1) {
+						return false
+					}
+				}
+				continue
+			}
+			return false
+		}
+		return true
+	}
+	stores := 0
+	good, why := true, ""
+	unknown := false
+	var at ssa.Instruction
+	fail := func(in ssa.Instruction, s string) {
+		if good {
+			good, why, at = false, s, in
+		}
+	}
+	for _, f := range fns {
+		var sts []*ssa.Store
+		eachInstr(f, func(in ssa.Instruction) {
+			if st, ok := in.(*ssa.Store); ok {
+				if _, isD := isFieldSel(st.Addr, "Event", "Data"); isD {
+					if k, isK := constString(st.Val); isK && k == "" {
+						return
+					}
+					sts = append(sts, st)
+				}
+			}
+		})
+		for _, st := range sts {
+			stores++
+			st := st
+			paths, okP := walkPaths(f.Blocks[0], 0, 4096, nil, func(in ssa.Instruction) bool { return in == ssa.Instruction(st) }, nil)
+			if !okP {
+				c.undecided(name, P.ipos(st), "too many paths to the Event.Data store")
+				return
+			}
+			for _, p := range paths {
+				if p.End != ssa.Instruction(st) {
+					continue
+				}
+				v := p.St.resolve(st.Val)
+				if call, isTR := isStaticCall(v, "strings.TrimRight", "strings.Trim", "strings.TrimSpace", "strings.TrimRightFunc", "strings.TrimFunc", "strings.TrimLeft"); isTR && isBuf(call.Call.Args[0], 0) {
+					fail(st, "the dispatched Data is the buffer with a whole run of characters trimmed ("+calleeName(call)+"): trailing empty data lines are lost, exactly one final LF must go")
+					continue
+				}
+				if call, isTS := isStaticCall(v, "strings.TrimSuffix"); isTS {
+					if k, isK := constString(call.Call.Args[1]); isK && k == "\n" && isBuf(call.Call.Args[0], 0) {
+						// drops the final LF when there is one: the terminator form's buffer always ends in LF
+						if !wantTrim {
+							fail(st, "the separator form has no final LF, yet the dispatched Data drops a trailing LF (an empty last data line is lost)")
+						}
+						continue
+					}
+					unknown = true
+					continue
+				}
+				if sl, isSl := v.(*ssa.Slice); isSl {
+					x := p.St.resolve(sl.X)
+					hi, isB := sl.High.(*ssa.BinOp)
+					okHi := false
+					if isB && hi.Op == token.SUB && sl.Low == nil {
+						if k, isK := constInt(hi.Y); isK && k == 1 && isLenOf(hi.X, x) {
+							okHi = true
+						}
+					}
+					if !isBuf(x, 0) {
+						unknown = true
+					} else if !okHi {
+						fail(st, "Data is a slice of the buffer other than `all but the last byte`")
+					} else if !wantTrim {
+						fail(st, "the separator form has no final LF, yet the dispatched Data drops the last byte")
+					}
+					continue
+				}
+				if !isBuf(v, 0) {
+					unknown = true
+					continue
+				}
+				if !wantTrim {
+					continue
+				}
+				// untrimmed on this path: only when the string is known to be empty
+				empty := false
+				for e := range p.St.Edges {
+					if len(e.From.Instrs) == 0 {
+						continue
+					}
+					ifi, isIf := e.From.Instrs[len(e.From.Instrs)-1].(*ssa.If)
+					if !isIf {
+						continue
+					}
+					cnd := decodeIf(ifi)
+					if cnd.Y == nil {
+						continue
+					}
+					if k, isK := constString(cnd.Y); isK && k == "" && p.St.resolve(cnd.X) == v {
+						if (cnd.Op == token.EQL && e.Idx == cnd.succWhen(true)) || (cnd.Op == token.NEQ && e.Idx == cnd.succWhen(false)) {
+							empty = true
+						}
+					}
+				}
+				if !empty && pathEstablishes(p.St, factInt(func(l ssa.Value) bool { return isLenOf(l, v) }, 0, 0, 0)) {
+					empty = true
+				}
+				if !empty {
+					fail(st, "the terminator form ends every data line with LF, yet a non-empty buffer is dispatched without dropping the final LF")
+				}
+			}
+		}
+	}
+	if stores == 0 {
+		c.ok(name, P.pos(it.Pos()), "not decided: no store to Event.Data found in the iterator")
+		return
+	}
+	if good && unknown {
+		c.ok(name, P.pos(it.Pos()), "not decided: a dispatched Data value is derived from the buffer in a way this rule does not model")
+		return
+	}
+	pos := P.pos(it.Pos())
+	if at != nil {
+		pos = P.ipos(at)
+	}
+	okMsg := "dispatched Data = buffer minus its final LF (untrimmed only when empty)"
+	if !wantTrim {
+		okMsg = "dispatched Data = the buffer as it is (separator form)"
+	}
+	c.check(good, name, pos, okMsg, "the dispatched Data is not the LF-join of the data lines ("+why+")")
 }
